@@ -1,4 +1,5 @@
 import CGV.Props.C20
+import CGV.Props.C20Ring
 #print axioms CGV.C20.C20_two_equals
 #print axioms CGV.C20.C20_surplus_positional
 #print axioms CGV.C20.C20_surplus_base
@@ -10,3 +11,6 @@ import CGV.Props.C20
 #print axioms CGV.C20.C20_ring_parity
 #print axioms CGV.C20.C20_duplicate_ring_edge
 #print axioms CGV.C20.C20_missing_fragment
+#print axioms CGV.C20.ringGraphAux_cases
+#print axioms CGV.C20.C20_unclosed_ring_string
+#print axioms CGV.C20.C20_ring_string_total
